@@ -123,7 +123,10 @@ namespace awkward {
   void
   GrowableBuffer<T>::append(T datum) {
     if (length_ == reserved_) {
-      set_reserved((int64_t)ceil(reserved_ * options_.resize()));
+      // always at least one more item: an initial size of 0 (or a resize
+      // factor that does not enlarge a small buffer) must still grow
+      int64_t bigger = (int64_t)ceil(reserved_ * options_.resize());
+      set_reserved(bigger > reserved_ ? bigger : reserved_ + 1);
     }
     ptr_.get()[length_] = datum;
     length_++;
